@@ -76,7 +76,13 @@ impl Cfg {
             self.off = from_cps(x);
         }
         if let Some(x) = v.get("now") {
-            self.now = (x[0].as_i64().unwrap_or(0), x[1].as_i64().unwrap_or(0));
+            if x.as_str() == Some("wall") {
+                // the harness's own reading of the system clock (logged with the Config event)
+                let t = std::time::SystemTime::now().duration_since(std::time::UNIX_EPOCH).map(|d| d.as_secs() as i64).unwrap_or(0);
+                self.now = (t / 86400, t % 86400);
+            } else {
+                self.now = (x[0].as_i64().unwrap_or(0), x[1].as_i64().unwrap_or(0));
+            }
         }
         if let Some(x) = v.get("targets") {
             self.targets = x
@@ -333,7 +339,14 @@ fn run_cli(op: &Value, file: &mut String, cfg: &Cfg, cli: Option<&str>, events: 
     if explicit("off") {
         args.push(format!("--time-limited-time-offset={}", cfg.off));
     }
-    args.push(format!("--time-limited-current={}", rfc3339(cfg.now.0, cfg.now.1, zone_min)));
+    // "current": "omit" leaves the option out: the process then reads the system clock itself
+    // "current": "garbage" passes a string that is no time (the code falls back to the clock as well)
+    let current = s("current", "given");
+    match current.as_str() {
+        "omit" => {}
+        "garbage" => args.push("--time-limited-current=not-a-time".into()),
+        _ => args.push(format!("--time-limited-current={}", rfc3339(cfg.now.0, cfg.now.1, zone_min))),
+    }
     // targets: the behaviour says which go through the file and which through flags
     let file_targets: Vec<String> = op.get("file_targets").and_then(|x| x.as_array()).map(|a| a.iter().map(from_cps).collect()).unwrap_or_default();
     let flag_targets: Vec<String> = op.get("flag_targets").and_then(|x| x.as_array()).map(|a| a.iter().map(from_cps).collect()).unwrap_or_default();
@@ -380,6 +393,7 @@ fn run_cli(op: &Value, file: &mut String, cfg: &Cfg, cli: Option<&str>, events: 
         }
         child.wait_with_output()
     });
+    let wall1 = std::time::SystemTime::now().duration_since(std::time::UNIX_EPOCH).map(|d| d.as_secs() as i64).unwrap_or(0);
     match res {
         Ok(o) => {
             let stdout_utf8 = String::from_utf8(o.stdout.clone());
@@ -391,6 +405,7 @@ fn run_cli(op: &Value, file: &mut String, cfg: &Cfg, cli: Option<&str>, events: 
             let shown: Vec<String> = args.iter().map(|a| a.replace(dir.to_string_lossy().as_ref(), "$D")).collect();
             events.push(json!({
                 "ev": "Cli", "args": shown, "input": input, "output": output, "mode": mode, "json": b("json"),
+                "cur_given": current == "given", "wall1": [wall1 / 86400, wall1 % 86400],
                 "via": via, "tz": tz, "lang": lang, "omit": op.get("omit").cloned().unwrap_or(json!([])),
                 "file_targets": file_targets.iter().map(|t| cps(t)).collect::<Vec<_>>(),
                 "flag_targets": flag_targets.iter().map(|t| cps(t)).collect::<Vec<_>>(),
